@@ -8,7 +8,7 @@
 //   interp <s1> <s2> <t> -> `<x> <y> <yaw>` | `none`                       interpolate(s1, s2, t, out)
 //   endp <s1> <s2>       -> `rev=<b> <W> <t> <p> <q> | <x> <y> <yaw>`      the path interpolate() stores (after the
 //                                                                         symmetric choice) and interpolate(from, path, 1.0, out, rho)
-// header `rs rho=<bits> lo=<bits> hi=<bits>`                     (implementation only: no Lean model)
+// header `rs rho=<bits> lo=<bits> hi=<bits>`                     (also understood by drv_dubins: Model/ReedsShepp.lean)
 //   rspath <s1> <s2>     -> `<letters> <l0> .. <l4> len=<l>`               reedsShepp(s1, s2): 5 segment letters (L,S,R,N), signed lengths
 //   rsinterp <s1> <s2> <t> -> `<x> <y> <yaw>`                              interpolate(s1, s2, t, out)
 //   rsend <s1> <s2>      -> `<x> <y> <yaw>`                                interpolate(from, reedsShepp(s1,s2), 1.0, out)  (protected; derived class)
@@ -67,6 +67,11 @@ static std::string showPose(const Pose *s)
 static bool isDefault(const DSS::DubinsPath &p)
 {
     return p.length_[1] == std::numeric_limits<double>::max();
+}
+
+static bool rsDefault(const RSS::ReedsSheppPath &p)
+{
+    return p.length() == std::numeric_limits<double>::max();
 }
 
 static std::string wordName(const DSS::DubinsPath &p)
@@ -179,6 +184,11 @@ static int runRS(double rho, double lo, double hi)
         if (op == "rspath" && t.size() == 7 && setPose(s1, t, 1) && setPose(s2, t, 4))
         {
             auto p = sp.reedsShepp(s1, s2);
+            if (rsDefault(p))
+            {
+                out("nopath");
+                continue;
+            }
             std::string s;
             for (int i = 0; i < 5; ++i)
                 s += p.type_[i] == RSS::RS_LEFT ? 'L' : p.type_[i] == RSS::RS_RIGHT ? 'R' : p.type_[i] == RSS::RS_STRAIGHT ? 'S' : 'N';
@@ -188,19 +198,35 @@ static int runRS(double rho, double lo, double hi)
         }
         else if (op == "rsinterp" && t.size() == 8 && setPose(s1, t, 1) && setPose(s2, t, 4) && vp::parseBits(t[7]))
         {
-            sp.interpolate(s1, s2, *vp::parseBits(t[7]), o);
+            double tt = *vp::parseBits(t[7]);
+            if (!(tt >= 1.) && !(tt <= 0.) && rsDefault(sp.reedsShepp(s1, s2)))
+            {
+                out("none");
+                continue;
+            }
+            sp.interpolate(s1, s2, tt, o);
             out(showPose(o));
         }
         else if (op == "rsend" && t.size() == 7 && setPose(s1, t, 1) && setPose(s2, t, 4))
         {
             auto p = sp.reedsShepp(s1, s2);
+            if (rsDefault(p))
+            {
+                out("nopath");
+                continue;
+            }
             sp.interpPath(s1, p, 1.0, o);
             out(showPose(o));
         }
         else if (op == "both" && t.size() == 7 && setPose(s1, t, 1) && setPose(s2, t, 4))
         {
-            out("rs=" + vp::bits(sp.distance(s1, s2)) + " rsrev=" + vp::bits(sp.distance(s2, s1)) +
-                " dub=" + vp::bits(DSS::distance(s1, s2, rho)) + " dubrev=" + vp::bits(DSS::distance(s2, s1, rho)));
+            auto d = [&](const ob::State *a, const ob::State *b) {
+                return rsDefault(sp.reedsShepp(a, b)) ? std::string("none") : vp::bits(sp.distance(a, b));
+            };
+            auto u = [&](const ob::State *a, const ob::State *b) {
+                return isDefault(DSS::dubins(a, b, rho)) ? std::string("none") : vp::bits(DSS::distance(a, b, rho));
+            };
+            out("rs=" + d(s1, s2) + " rsrev=" + d(s2, s1) + " dub=" + u(s1, s2) + " dubrev=" + u(s2, s1));
         }
         else
             out("bad-op");
